@@ -33,7 +33,9 @@ ASSUMPTIONS = [
 ]
 ALPHABET = "(),:->a "
 POOL = ["x", "t", "e", "c", "n", "r", "l", "f", "i", "o", "u", "g", "T", "xleft", "center1", "inner_x", "outerspace", "cent", "xx", "xc", "xc2",
-        "XC", "Xc", "abcdefghijkl", "temp_unique", "ydummy", "lon", "__a", "_", "X1"]
+        "XC", "Xc", "abcdefghijkl", "temp_unique", "ydummy", "lon", "__a", "_", "X1",
+        # letters outside ASCII are word characters too
+        "\u03bb", "\u03c3", "L\u00e4nge", "\u6df1\u5ea6"]
 
 
 def sig_of(text):
@@ -208,6 +210,11 @@ def check_corrupted(rec, text, c):
     rec.violation("corruption", cls, case, "ValueError", str(s))
 
 
+# parameter names of the annotated functions: deliberately not in alphabetical order (the signature follows the order of
+# the parameters, not of their names)
+PARAMS = ("q", "b", "a10", "a2")
+
+
 def annotated_hints(sig, spaces=0):
     """spaces: 0 none; 1 a blank after each comma; 2 blanks around the colon and around the whole text"""
     ins, outs = sig
@@ -216,7 +223,7 @@ def annotated_hints(sig, spaces=0):
     col = (":", ":", " : ")[spaces]
     wrap = (lambda t: t) if spaces < 2 else (lambda t: " " + t + " ")
     for i, a in enumerate(ins):
-        ann[f"a{i}"] = Annotated[np.ndarray, wrap(sep.join(f"{n}{col}{p}" for n, p in a))]
+        ann[PARAMS[i]] = Annotated[np.ndarray, wrap(sep.join(f"{n}{col}{p}" for n, p in a))]
     rets = [Annotated[np.ndarray, wrap(sep.join(f"{n}{col}{p}" for n, p in a))] for a in outs]
     ann["return"] = rets[0] if len(rets) == 1 else Tuple[tuple(rets)]
     return ann
@@ -226,7 +233,7 @@ def annotated_text(sig):
     """the same hints written as text (quoted annotations, or a module under `from __future__ import annotations`)"""
     ins, outs = sig
     txt = lambda a: 'Annotated[np.ndarray, "%s"]' % ",".join(f"{n}:{p}" for n, p in a)
-    ann = {f"a{i}": txt(a) for i, a in enumerate(ins)}
+    ann = {PARAMS[i]: txt(a) for i, a in enumerate(ins)}
     rets = [txt(a) for a in outs]
     ann["return"] = rets[0] if len(rets) == 1 else "Tuple[%s]" % ", ".join(rets)
     return ann
@@ -242,7 +249,7 @@ def check_decorated(rec, sig, as_text):
     case = dict(kind="decorated", text=text, as_text=as_text)
     ins, _ = sig
     ns = {"np": np, "Annotated": Annotated, "Tuple": Tuple}
-    exec("def f(%s):\n    return None" % ", ".join(f"a{i}" for i in range(len(ins))), ns)
+    exec("def f(%s):\n    return None" % ", ".join(PARAMS[i] for i in range(len(ins))), ns)
     f = ns["f"]
     f.__annotations__ = annotated_text(sig) if as_text else annotated_hints(sig)
     rec.case(("dec", text, as_text), True)
